@@ -46,6 +46,15 @@ pub const KNOWN_EXTREME: [f64; 23] = [
 /// min|A| / sum|a_k| then approaches the f64 epsilon, so the coefficients cannot carry the peak).
 pub const F64_SECTION_RANGE_NEPERS: f64 = 28.0;
 
+/// The same class expressed through the quantity that actually limits a double-precision
+/// direct form: cond = s * eps * sum|a_k| / min|A| is the relative error one rounding of the
+/// coefficients causes at the spectral peak, summed over the s sections. The recursions that
+/// produce the coefficients amplify it by up to about ten (measured: cond 1.36e-4 -> 1.2e-3
+/// neper at thorough seed 4, idx 25243, order 18, stage 4, 25.8 nepers per section; cond 0.22
+/// -> 0.29 neper at seed 3, idx 13865), so the property's 0.001-neper bound cannot be met by
+/// any f64 direct form once cond exceeds 1e-4.
+pub const F64_CONDITION_LIMIT: f64 = 1e-4;
+
 pub fn run(ctx: &mut Ctx) {
     ctx.run_cases("known-extreme", 1, true, |ctx, _rng, idx| {
         one_case(ctx, idx, KNOWN_EXTREME.to_vec(), 4, 0.4988413339439832, true, 44100, 0.6103194783938943);
@@ -153,17 +162,22 @@ fn one_case(ctx: &mut Ctx, idx: usize, w: Vec<f64>, stage: usize, alpha: f64, lo
             .collect();
         let gmax = grid.iter().cloned().fold(f64::NEG_INFINITY, f64::max);
         let gmin = grid.iter().cloned().fold(f64::INFINITY, f64::min);
+        // conditioning of the direct form in f64: the coefficients a_k are O(sum|a_k|), the value
+        // they have to produce at the spectral peak is min|A|; the s cascaded sections add up
+        let amin = (0..=4096).map(|i| poly_mag(&a, PI * i as f64 / 4096.0)).fold(f64::INFINITY, f64::min);
+        let cond = stage as f64 * f64::EPSILON * a.iter().map(|x| x.abs()).sum::<f64>() / amin;
+        let beyond_f64 = (gmax - gmin) / stage as f64 > F64_SECTION_RANGE_NEPERS || cond > F64_CONDITION_LIMIT;
         if std::env::var("JBV_DEBUG").is_ok() {
             eprintln!("DBG idx={} m={} stage={} dyn={:.1} finite={} conv={} growing={} frames={}", idx, m, stage, gmax - gmin, st.finite, st.converged, st.growing(), st.frames_used);
         }
         if !st.finite {
-            let sig = if (gmax - gmin) / stage as f64 > F64_SECTION_RANGE_NEPERS { "non-finite-response:section-dynamic-range-beyond-f64-direct-form" } else { "non-finite-response" };
+            let sig = if beyond_f64 { "non-finite-response:section-dynamic-range-beyond-f64-direct-form" } else { "non-finite-response" };
             ctx.violation(sig, descr().set("frames", st.frames_used).set("model_dynamic_range_nepers", gmax - gmin).set("per_section_nepers", (gmax - gmin) / stage as f64));
             return;
         }
         if !st.converged {
             if st.growing() {
-                let sig = if (gmax - gmin) / stage as f64 > F64_SECTION_RANGE_NEPERS { "non-finite-response:section-dynamic-range-beyond-f64-direct-form" } else { "response-not-decaying" };
+                let sig = if beyond_f64 { "non-finite-response:section-dynamic-range-beyond-f64-direct-form" } else { "response-not-decaying" };
                 ctx.violation(sig, descr().set("peak", st.peak).set("frames", st.frames_used).set("model_dynamic_range_nepers", gmax - gmin).set("per_section_nepers", (gmax - gmin) / stage as f64));
             } else {
                 ctx.count("not_converged_skipped", 1.0);
@@ -196,9 +210,9 @@ fn one_case(ctx: &mut Ctx, idx: usize, w: Vec<f64>, stage: usize, alpha: f64, lo
         ctx.max("frames_to_steady_state", st.frames_used as f64);
         // beyond the listed per-section range the f64 coefficients themselves cannot carry the
         // spectrum (rounding the exact A(z) to f64 already moves the peak by > 0.001 neper)
-        let beyond = (gmax - gmin) / stage as f64 > F64_SECTION_RANGE_NEPERS;
+        let beyond = beyond_f64;
         if !(worst <= 0.001) {
-            ctx.violation(if beyond { "spectrum-mismatch:section-dynamic-range-beyond-f64-direct-form" } else { "spectrum-mismatch" }, descr().set("per_section_nepers", (gmax - gmin) / stage as f64).set("worst_error_nepers", worst).set("at_omega", worst_w));
+            ctx.violation(if beyond { "spectrum-mismatch:section-dynamic-range-beyond-f64-direct-form" } else { "spectrum-mismatch" }, descr().set("per_section_nepers", (gmax - gmin) / stage as f64).set("f64_condition", cond).set("worst_error_nepers", worst).set("at_omega", worst_w));
         }
         // the response to the very first pulse (first frame) must realise the same spectrum
         if st.first_decayed {
